@@ -166,6 +166,58 @@ def _core_cases(skey, flags=""):
     return out
 
 
+# ---------------------------------------------------------------------------------------------
+# class escapes and case-insensitive matching on non-ASCII characters (expected = V8 table)
+
+UCHARS = ["a", "Z", "k", "K", "s", "S", "i", "I", "0", "9", "_", " ", "\t", "\n", "\r", "\x0b", "\x0c", "\x1c", "\x1f", "\x85", "\xa0",
+          "\xb2", "\xb5", "\xdf", "\xe9", "\xc9", "\xff", "İ", "ı", "ſ", "Ÿ", "ǅ", "Σ", "σ", "ς",
+          "Μ", "μ", "٣", "१", " ", "᠎", "ẞ", " ", " ", "​", " ", " ",
+          " ", " ", "Ω", "ω", "K", "Å", "\xe5", "　", "﻿", "１", "Ａ", "ａ", "ﬀ"]
+UCLASS_PATTERNS = ["\\d", "\\D", "\\w", "\\W", "\\s", "\\S", "[\\d]", "[\\D]", "[\\w]", "[\\W]", "[\\s]", "[\\S]", "[^\\d]", "[^\\w]",
+                   "[^\\s]", "[^\\S]", "\\b.", ".\\b", "\\B.", ".", "[a-z]", "[A-Z]", "[^a-z]", "[\\u0100-\\u2200]", "[^\\u0100-\\u2200]",
+                   "[\\w-\\xff]", "^.$"]
+
+
+def _js_str(text):
+    return '"' + "".join("\\u%04x" % ord(c) for c in text) + '"'
+
+
+def uclass_cases():
+    subjects = "[" + ",".join(_js_str(c) for c in UCHARS) + "]"
+    out = []
+
+    def prog(src, flags):
+        return ("var S = %s, re = new RegExp(%s, %s), out = '';\nfor (var i = 0; i < S.length; i++) { re.lastIndex = 0; "
+                "out += re.test(S[i]) ? '1' : '0'; }\nout" % (subjects, _js_str(src), _js_str(flags)))
+
+    for pat in UCLASS_PATTERNS:
+        for fl in ("", "i", "s", "im"):
+            out.append(("U|pat=%s|flags=%s" % (pat, fl), {"src": prog(pat, fl), "tl": 50, "pat": pat, "flags": fl, "kind": "class"}))
+    for c in UCHARS:
+        if c in "\n\r  ":
+            esc = "\\u%04x" % ord(c)
+        else:
+            esc = c
+        for form, pat in (("char", esc), ("class", "[" + esc + "]"), ("negclass", "[^" + esc + "]"), ("backref", "(" + esc + ")\\1")):
+            if form == "backref":
+                # subject is the character followed by each other character
+                src = ("var S = %s, re = new RegExp(%s, 'i'), out = '';\nfor (var i = 0; i < S.length; i++) "
+                       "out += re.test(%s + S[i]) ? '1' : '0';\nout" % (subjects, _js_str(pat), _js_str(c)))
+            else:
+                src = prog(pat, "i")
+            out.append(("U|%s=U+%04X|flags=i" % (form, ord(c)), {"src": src, "tl": 50, "pat": pat, "flags": "i", "kind": form}))
+    return out
+
+
+def _uclass_space():
+    return Space("c09_unicode_classes", "mc.props.common:run_src", uclass_cases, oracle="table",
+                 rule="%d class-escape / range patterns x flags {none,i,s,im}, and every one of %d characters as literal, class, negated "
+                      "class and back-reference under flag i, each tested against all %d characters (ASCII, Latin-1, case-mapping "
+                      "oddities such as U+0130 U+017F U+212A U+00DF, non-ASCII digits and spaces); expected = V8"
+                      % (len(UCLASS_PATTERNS), len(UCHARS), len(UCHARS)),
+                 bound="patterns x %d subjects" % len(UCHARS), batch=50)
+
+
 def spaces(tier, seed, all_strata=False):
     core = [
         _space("c09_size3_full", lambda: _cases(3, G.ATOMS16, "", "ab1_5", script=True),
@@ -186,6 +238,7 @@ def spaces(tier, seed, all_strata=False):
         _space("c09_flag_i", lambda: _cases(3, G.ATOMS12, "i", "aAb_4"), "size <= 3, flag i, subjects over {a,A,b}", "size <= 3"),
         _space("c09_flag_m", lambda: _cases(3, G.ATOMS12, "m", "abn_4"), "size <= 3, flag m, subjects over {a,b,\\n}", "size <= 3"),
         _space("c09_flag_s", lambda: _cases(3, G.ATOMS12, "s", "abn_4"), "size <= 3, flag s, subjects over {a,b,\\n}", "size <= 3"),
+        _uclass_space(),
     ]
     strata = []
     for k in range(8):
@@ -205,6 +258,17 @@ def spaces(tier, seed, all_strata=False):
 
 
 def signature(sp, cid, payload, exp, obs):
+    if sp.name == "c09_unicode_classes":
+        k = payload.get("kind")
+        e, o = exp.rpartition("|")[2], obs.rpartition("|")[2]
+        if e.startswith("Rs") and o.startswith("Rs") and len(e) == len(o):
+            bad = [UCHARS[i] for i in range(len(UCHARS)) if e[3 + i:4 + i] != o[3 + i:4 + i]]
+            what = "differs on " + ",".join("U+%04X" % ord(c) for c in bad[:6])
+        else:
+            what = "outcome %s instead of %s" % (o[:20], e[:20])
+        if k == "class":
+            return "uclass|%s|%s" % (payload["pat"], payload["flags"]), "pattern %s flags '%s': %s" % (payload["pat"], payload["flags"], what)
+        return "ucase|%s|%s" % (k, what), "case-insensitive %s form: %s (e.g. %s)" % (k, what, cid)
     ast = payload["ast"]
     kinds = set()
 
